@@ -1,5 +1,6 @@
 import Driver.Proto
 import AGH.Spec.Migrate
+import AGH.Spec.Loader
 open Driver AGH AGH.C13
 
 /-! Line-protocol driver of C13 (see harness/configmigrate/c13_test.go for the format). -/
@@ -264,18 +265,60 @@ def stepDoc (ins impl : List String) : Option String := do
     | _ => none
   | _ => none
 
-/-- `C13.load body valid => result loadOK`: the loader-acceptance clause.  There is no model
-prediction for these lines (no schema of the historical versions): the driver only
-evaluates the clause on the implementation's observation. -/
-def stepLoad (ins impl : List String) : Option String :=
-  match ins, impl with
-  | [_body, valid], [res, loadOK] =>
-    let spec : Option String :=
-      if res.startsWith "P" then some "panic-other-step0"
-      else if valid == "1" && (res == "U" || res == "S") && loadOK != "1" then some "loader-rejects"
-      else none
-    some (verdict true spec ("load\t" ++ (res.take 1).toString ++ "\t" ++ (loadOK.take 1).toString))
-  | _, _ => none
+/-! `C13.load`: the loader-acceptance clause (see harness/home/c13load_test.go).
+
+    C13.load body valid migrated unmarshalled httpValid httpPort nBind b1..bn dnsPort
+             tlsEnabled portHTTPS portDoT portDoQ portDNSCrypt ciphersOK  =>  result -/
+
+def showLoadRes : C13L.LoadRes → String
+  | .ok => "ok"
+  | .migrate => "migrate"
+  | .unmarshal => "unmarshal"
+  | .bindHTTP => "bindhttp"
+  | .bindDNS i => "binddns:" ++ toString i
+  | .tcpDup ps => "tcp:" ++ ",".intercalate (ps.map toString)
+  | .udpDup ps => "udp:" ++ ",".intercalate (ps.map toString)
+  | .ciphers => "ciphers"
+
+def parsePorts (s : String) : Option (List Nat) := (s.splitOn ",").mapM parseNat
+
+def parseLoadRes (s : String) : Option C13L.LoadRes :=
+  match s.splitOn ":" with
+  | ["ok"] => some .ok
+  | ["migrate"] => some .migrate
+  | ["unmarshal"] => some .unmarshal
+  | ["bindhttp"] => some .bindHTTP
+  | ["binddns", i] => (parseNat i).map .bindDNS
+  | ["tcp", ps] => (parsePorts ps).map .tcpDup
+  | ["udp", ps] => (parsePorts ps).map .udpDup
+  | ["ciphers"] => some .ciphers
+  | _ => none
+
+def stepLoad (ins impl : List String) : Option String := do
+  match ins with
+  | _body :: valid :: mig :: unm :: httpValid :: httpPort :: nBind :: r0 =>
+    let (bs, r1) ← takeN (← parseNat nBind) r0
+    match r1, impl with
+    | [dnsPort, tlsEnabled, https, dot, doq, dnscrypt, ciphersOK], [res] =>
+      let i : C13L.LoaderIn := {
+        migrated := ← parseBool mig, unmarshalled := ← parseBool unm, httpValid := ← parseBool httpValid,
+        httpPort := ← parseNat httpPort, bindValid := ← bs.mapM parseBool, dnsPort := ← parseNat dnsPort,
+        tlsEnabled := ← parseBool tlsEnabled, portHTTPS := ← parseNat https, portDoT := ← parseNat dot,
+        portDoQ := ← parseNat doq, portDNSCrypt := ← parseNat dnscrypt, ciphersOK := ← parseBool ciphersOK }
+      let valid ← parseBool valid
+      let m := C13L.parseConfig i
+      let shown := showLoadRes m
+      -- a result outside the model's vocabulary (panic, write error, …) is a rejection for the monitor
+      let implRes : C13L.LoadRes := (parseLoadRes res).getD .unmarshal
+      let spec : Option String :=
+        if res.startsWith "PANIC" then some "panic-other-step0"
+        else match C13L.loaderWhy valid i implRes with
+          | some .rejectsValid => some "loader-rejects"
+          | some .acceptsInvalid => some "loader-accepts-invalid"
+          | none => none
+      some (verdict (shown == res) spec ("load\t" ++ shown))
+    | _, _ => none
+  | _ => none
 
 def step (_ : Unit) (line : String) : Unit × String :=
   let fs := splitTab line
@@ -290,7 +333,10 @@ def step (_ : Unit) (line : String) : Unit × String :=
     | none => ((), "bad-op")
   | "C13.load" :: rest =>
     match splitArrow rest with
-    | some (ins, impl) => ((), (stepLoad ins impl).getD "bad-op")
+    | some (ins, impl) =>
+      match impl with
+      | ["PANIC", _] => ((), verdict false (some "panic-other-step0") "harness-panic")
+      | _ => ((), (stepLoad ins impl).getD "bad-op")
     | none => ((), "bad-op")
   | _ => ((), "bad-op")
 
